@@ -773,7 +773,13 @@ def execute(doc):
 
 def _outcome(func, *args):
     try:
-        return ('value', canon(func(*args)))
+        value = func(*args)
+        result = ('value', canon(value))
+        if func is _call_observer and args[1:] and args[1] in ('compose', 'key_bytes') and isinstance(value, bytearray):
+            # the caller owns what compose() hands back: it goes on writing into that buffer (the next header, the
+            # next record), which must not reach into the object or into what later calls return
+            value += b'\xa5\x5a'
+        return result
     except (core.RunTimeout, KeyboardInterrupt, SystemExit, core.HarnessError):
         raise
     except BaseException as exc:  # pylint: disable=broad-except
@@ -866,19 +872,62 @@ def _break_and_restore(obj, name, number, first, res):
     if not fields:
         return
     field = fields[number % len(fields)]
-    bad = (None, 0, 'x', b'x', -1)[(number // len(fields)) % 5]
+    candidates = [(None, 0, 'x', b'x', -1)[(number // len(fields)) % 5]]
     try:
         original = getattr(obj, field.name)
-        if type(original) is type(bad):  # pylint: disable=unidiomatic-typecheck
-            bad = [bad]
+    except Exception:  # pylint: disable=broad-except
+        return
+    if isinstance(original, enum.Enum):
+        # the textual spellings of the member instead of the member (its code, related codes of the library's string
+        # enumerations): a caller's classic slip
+        candidates += _related_spellings(original)
+    elif type(original) is type(candidates[0]):  # pylint: disable=unidiomatic-typecheck
+        candidates = [[candidates[0]]]
+    for bad in candidates:
+        _break_once(obj, name, field, original, bad, first, res)
+        if res.violations:
+            return
+
+
+def _related_spellings(member):
+    from simverif import wirefault
+    import re
+    texts = [member.name.lower()]
+    code = getattr(member.value, 'code', None)
+    if isinstance(code, str):
+        texts.append(code.lower())
+    chunks = {chunk for text in texts for chunk in re.findall(r'[a-z]+\d*|\d{3,}', text) if len(chunk) >= 3}
+    out = [code] if isinstance(code, str) else []
+    for token in wirefault.enum_tokens():
+        spelled = token.decode('ascii').lower()
+        if any(chunk in spelled for chunk in chunks) and spelled not in (item.lower() for item in out):
+            out.append(token.decode('ascii'))
+        if len(out) >= 4:
+            break
+    return out
+
+
+def _break_once(obj, name, field, original, bad, first, res):
+    try:
         setattr(obj, field.name, bad)
     except Exception:  # the field cannot be assigned  # pylint: disable=broad-except
         return
     failed = 0
     try:
+        broken = canon(obj)
+    except core.HarnessError:
+        broken = None
+    try:
         for call in first:
             outcome = _outcome(_call_observer, obj, call)
             failed += outcome[0] == 'raised'
+            if broken is not None and canon(obj) != broken:
+                res.violation((PROPERTY, 'observer-changed-object', name, call, 'failed' if outcome[0] == 'raised' else 'ok'),
+                              'an observer never changes the object, successfully or not',
+                              'field %s set to %r; %s() %s and the object differs from its snapshot: %s' % (
+                                  field.name, bad, call, 'raised ' + str(outcome[1]) if outcome[0] == 'raised' else 'returned',
+                                  _first_difference(broken, canon(obj))))
+                return
     finally:
         setattr(obj, field.name, original)
     res.stats['probe.field_broken_and_restored'] += 1
